@@ -314,15 +314,15 @@ PROPS = {
     },
     "C05": {
         "level": "proof",
-        "claim": "Two halves. (a) SEGMENTATION - decided, holds: a control-plane reader that is polled to completion gives the same result however the peer's bytes are chunked and however often the source reports Pending (one-step inductive poll contracts of the leaf futures from ANY state, Kani; Frame::read_async and the read_frame_async loops as sequential compositions for inputs of any length, Verus unit frame_async; the stream run loops over every sequence of read results, unit driver_streams). (b) INTERLEAVING / cancellation - decided, VIOLATED on the unchanged tree (known finding D6): the contract 'every leaf read of Frame::read_async is started with nothing consumed since the frame began' (Verus unit cancel_safety) fails at its 2nd and 3rd reads, and a leaf future dropped while Pending loses the bytes it took (Kani p_get_*_cancel_keeps_input, concrete counterexamples replayed natively); Worker::run_impl drops the pending control-stream readers whenever another select! branch completes. Demonstrated on the real code by findings/D6-demo/demo_c05.rs (SETTINGS or a close capsule split in two with a datagram / stream in between => H3 error or lost close code).",
+        "claim": "Two halves. (a) SEGMENTATION - decided, holds: a control-plane reader that is polled to completion gives the same result however the peer's bytes are chunked and however often the source reports Pending (one-step inductive poll contracts of the leaf futures from ANY state, Kani; Frame::read_async and the read_frame_async loops as sequential compositions for inputs of any length, Verus unit frame_async; the stream run loops over every sequence of read results, unit driver_streams; the driver adapter under those readers, QuicRecvStream::poll_read, reports exactly the number of bytes quinn filled in per poll, passes an error on as it is and keeps Pending as Pending, unit driver_poll). (b) INTERLEAVING / cancellation - decided, VIOLATED on the unchanged tree (known finding D6): the contract 'every leaf read of Frame::read_async is started with nothing consumed since the frame began' (Verus unit cancel_safety) fails at its 2nd and 3rd reads, and a leaf future dropped while Pending loses the bytes it took (Kani p_get_*_cancel_keeps_input, concrete counterexamples replayed natively); Worker::run_impl drops the pending control-stream readers whenever another select! branch completes. Demonstrated on the real code by findings/D6-demo/demo_c05.rs (SETTINGS or a close capsule split in two with a datagram / stream in between => H3 error or lost close code).",
         "note": "The step from 'the reader future is not cancel-safe' to 'the driver cancels it' is by reading Worker::run_impl (tokio::select! is a macro outside both verifiers) and by the demonstration; the contract itself is checked on the real code. NOT decided: which events the worker reacts to in which order (schedules), the request stream's first frame (read in a spawned task, not in the select! loop).",
         "kani": ASYNC_LEAF_KANI[:3] + CANCEL_KANI,
-        "verus": [V("cancel_safety"), V("frame_async"), V("driver_streams")],
+        "verus": [V("cancel_safety"), V("frame_async"), V("driver_streams"), V("driver_poll")],
         "not_decided": ["schedules of the select! loop", "tokio::select! semantics (by reading)"],
     },
     "C06": {
         "level": "proof",
-        "claim": "Code/arm mapping only: quinn reset/stop codes are converted to the application's Reset(c)/Stopped(c) unchanged for all 2^62 codes, other quinn error variants never become Reset/Stopped, and the varint conversions at the driver boundary are the identity. Stream wrappers (Verus unit driver_io): the stopped-notification reports STOP_SENDING(c) as Stopped(c) with the same code, a finished-and-acknowledged stream as Closed; QuicSendStream::finish succeeds IFF quinn reports the stream finished with everything acknowledged and otherwise fails with the mapped cause (Stopped(c), NotConnected, ...); reset(c) / stop(c) hand exactly c to quinn.",
+        "claim": "Code/arm mapping only: quinn reset/stop codes are converted to the application's Reset(c)/Stopped(c) unchanged for all 2^62 codes, other quinn error variants never become Reset/Stopped, and the varint conversions at the driver boundary are the identity. Stream wrappers (Verus unit driver_io): the stopped-notification reports STOP_SENDING(c) as Stopped(c) with the same code, a finished-and-acknowledged stream as Closed; QuicSendStream::finish succeeds IFF quinn reports the stream finished with everything acknowledged and otherwise fails with the mapped cause (Stopped(c), NotConnected, ...); reset(c) / stop(c) hand exactly c to quinn. Poll-level forwarding (Verus unit driver_poll, extracted bodies of the AsyncWrite impls of QuicSendStream, SendStream and BiStream): poll_shutdown (the FIN) reaches quinn's poll_shutdown, poll_flush its poll_flush and poll_write its poll_write with exactly the bytes offered, once each, and quinn's answer is returned unchanged.",
         "note": "Everything else on this path is quinn (delivery of the signal, finish-acknowledged semantics). Variants carrying a quinn::ConnectionError (ConnectionLost) are not constructed (bytes::Bytes is out of CBMC's reach).",
         "kani": DRIVER_KANI,
         "verus": [V("driver_io"), V("driver_poll")],
@@ -390,7 +390,7 @@ PROPS = {
     },
     "C16": {
         "level": "proof",
-        "claim": "Absolute wire format of the encoders against an independent RFC transcription (never the crate's decoder): frame / stream / setting / capsule / error-code registry values, ALPN h3, the QPACK static table == RFC 9204 Appendix A, frame and stream-header encoders and the WT preambles == RFC bytes for any payload length, datagram prefix, QPACK prefix integers == RFC 7541 5.1, Encoder::encode == 00 00 + exactly one RFC 9204 4.5 static/literal line per field, and the endpoint's local SETTINGS advertise WebTransport, H3 datagrams and extended CONNECT with a zero-capacity QPACK table. Datagrams: the driver's send path emits varint(session id / 4) || payload (unit datagram). Control stream: the worker opens exactly one local control stream, with the Control header, and sends SETTINGS on it exactly once as the first thing (unit driver: Worker::open_and_send_settings; a refused control stream is H3_CLOSED_CRITICAL_STREAM).",
+        "claim": "Absolute wire format of the encoders against an independent RFC transcription (never the crate's decoder): frame / stream / setting / capsule / error-code registry values, ALPN h3, the QPACK static table == RFC 9204 Appendix A, frame and stream-header encoders and the WT preambles == RFC bytes for any payload length, datagram prefix, QPACK prefix integers == RFC 7541 5.1, Encoder::encode == 00 00 + exactly one RFC 9204 4.5 static/literal line per field, and the endpoint's local SETTINGS advertise WebTransport, H3 datagrams and extended CONNECT with a zero-capacity QPACK table. Datagrams: the driver's send path emits varint(session id / 4) || payload (unit datagram). Control stream: the worker opens exactly one local control stream, with the Control header, and sends SETTINGS on it exactly once as the first thing (unit driver: Worker::open_and_send_settings; a refused control stream is H3_CLOSED_CRITICAL_STREAM). Driver adapter (Verus unit driver_poll): the AsyncWrite impl through which the sans-IO crate writes every protocol unit (QuicSendStream::poll_write) offers quinn exactly the bytes it was given and reports exactly the count quinn accepted (a short write is reported as short), for every buffer and every answer of quinn.",
         "note": "The content of the local SETTINGS (WebTransport, H3 datagrams, extended CONNECT, zero-capacity QPACK table) and Encoder::encode's line-per-field grammar are Verus units. Not under contract (HashMap iteration / sort closure / driver): the order in which Settings::generate_frame emits the pairs, sorted_headers ordering (pseudo-headers first), 'exactly one control stream, SETTINGS first' (worker).",
         "kani": [FRAME_KIND_KANI[3], STREAM_KIND_KANI[3], SETTING_ID_KANI[3]] + MISC_KANI + [QPACK_MISC[1]] + QPACK_INT_ENC[:2]
                 + [STREAM_KANI_QUICK[5], STREAM_HEADER_KANI[1], FRAME_WRITE_KANI[0], DATAGRAM_KANI[2], CAPSULE_KANI[0]] + ASYNC_LEAF_KANI[3:5] + ASYNC_WRITE_KANI + [QPACK_LOOKUP_QUICK],
